@@ -202,9 +202,18 @@ func init() {
 			if ifc, ok := tp.v.(iface); ok && ifc.t != nil {
 				res = tuple{true, errorText(fr, ifc)}
 			}
+			// innermost function of the panic (first stack line: "  <fn> <pos>")
+			site := strings.TrimSpace(tp.where)
+			if k := strings.IndexAny(site, " \n"); k > 0 {
+				site = site[:k]
+			}
+			fr.i.ex.lastPanicSite = site
 		}()
 		call(fr.i, fr, 0, f, nil)
 		return tuple{false, ""}
+	})
+	reg(rtPkg+".PanicSite", func(fr *frame, args []value) value {
+		return fr.i.ex.lastPanicSite
 	})
 	reg(rtPkg+".RunUntilBlocked", func(fr *frame, args []value) (res value) {
 		f := args[0]
@@ -250,6 +259,19 @@ func init() {
 		if ch, ok := args[0].(iface).v.(*channel); ok && ch != nil {
 			fr.i.ex.unbuf[ch] = true
 		}
+		return nil
+	})
+	reg(rtPkg+".Goroutines", func(fr *frame, args []value) value {
+		if fr.i.ex.sched == nil {
+			fr.i.ex.sched = newSched(fr.i, fr.i.ex)
+		}
+		return nil
+	})
+	reg(rtPkg+".Quiesce", func(fr *frame, args []value) value {
+		if fr.i.ex.sched == nil {
+			panic(engineError{"verifrt.Quiesce without verifrt.Goroutines"})
+		}
+		fr.i.ex.sched.quiesce()
 		return nil
 	})
 	reg(rtPkg+".Spawned", func(fr *frame, args []value) value {
